@@ -571,7 +571,23 @@ func (g *Gen) builtin(x ssa.Value, b *ssa.Builtin, cc *ssa.CallCommon, st *State
 		case *types.Basic:
 			g.setVal(x, sLen(a.S), x.Type())
 		case *types.Map:
-			g.setFresh(x, st)
+			// the size of a map is a function of its key set (uninterpreted; non-negative,
+			// zero for the nil map); contracts name it maplen(m)
+			ks, vs := m.sortOf(u.Key()), m.sortOf(u.Elem())
+			if ks == "Str" {
+				ks = "Int"
+			}
+			md, _ := m.compMap(ks, vs)
+			fn := "maplen_" + san(ks)
+			d1 := "(declare-fun " + fn + " ((Array " + ks + " Bool)) Int)"
+			if !m.extraSeen[d1] {
+				m.extraSeen[d1] = true
+				m.extraDecl = append(m.extraDecl, d1)
+			}
+			t := "(" + fn + " " + sel(g.heapGet(st, md), a.S) + ")"
+			n := g.define("maplen", "Int", ite(eq(a.S, "0"), "0", t))
+			g.assume(st, "(>= "+n+" 0)")
+			g.setVal(x, n, x.Type())
 			g.assume(st, "(>= "+g.vals[x].S+" 0)")
 		case *types.Array:
 			g.setVal(x, fmt.Sprint(u.Len()), x.Type())
